@@ -398,8 +398,14 @@ func runReplay(rt replayTemplate) (bool, bool, string) {
 	if err == nil {
 		return true, false, text
 	}
-	if strings.Contains(text, "--- FAIL") || strings.Contains(text, "panic:") || strings.Contains(text, "test timed out") {
+	// a replay test reports a reproduced violation with an explicit marker, so
+	// that a broken harness (panic in a fake, build failure) is never taken
+	// for a reproduction
+	if strings.Contains(text, "GOVC-REPLAY-VIOLATION") {
 		return true, true, text
+	}
+	if strings.Contains(text, "--- FAIL") || strings.Contains(text, "panic:") || strings.Contains(text, "test timed out") {
+		return false, false, "replay harness failed without reproducing the violation:\n" + text
 	}
 	return false, false, text // build failure etc.
 }
